@@ -17,6 +17,7 @@ import (
 	"path/filepath"
 	"sort"
 	"strings"
+	"sync"
 	"testing"
 	"time"
 
@@ -231,6 +232,11 @@ func TestVerifC15(t *testing.T) {
 		// a file given with a path: the archive knows it by its file name
 		"vendor/licenses/Synthetic-Path.txt": "Use of the path finder in any form is allowed as long as the path that was found is credited to its finder",
 		"Synthetic-Twin.txt":                 "REDISTRIBUTION OF THE FROBNICATOR\n   in source and binary forms\n   IS PERMITTED PROVIDED THAT THIS NOTICE IS RETAINED IN FULL",
+		// file names are names: a combining accent, a character outside the basic plane, a name of exactly 100 bytes (its .hash entry has 101)
+		"Synthe\u0301tique-Ünï.txt":              "La permission de bricoler ce logiciel est accordee a quiconque en detient une copie sans garantie aucune",
+		"Synthetic-\U0001d49c-Astral.txt":        "Permission to calligraph with this typeface is granted to every scribe who keeps this colophon intact",
+		strings.Repeat("N", 96) + ".txt":         "A license with a long name grants what a license with a short name grants and not one thing more",
+		strings.Repeat("M", 150) + ".header.txt": "This file is distributed under the license with the very long name see the accompanying file",
 	}
 	faultName := "" // the read of this file fails (once)
 	licenseclassifier.ReadLicenseFile = func(name string) ([]byte, error) {
@@ -309,6 +315,46 @@ func TestVerifC15(t *testing.T) {
 			continue
 		}
 		files = pristine
+		// archives loaded at the same time (several classifiers built by concurrent requests): each holds what a load alone gives
+		if round == 0 {
+			var abuf bytes.Buffer
+			if err := ArchiveLicenses(append([]string(nil), files...), &abuf); err == nil {
+				const nload = 6
+				ls := make([]*licenseclassifier.License, nload)
+				errs := make([]error, nload)
+				var lwg sync.WaitGroup
+				for i := 0; i < nload; i++ {
+					lwg.Add(1)
+					go func(i int) {
+						defer lwg.Done()
+						ls[i], errs[i] = licenseclassifier.New(licenseclassifier.DefaultConfidenceThreshold, licenseclassifier.ArchiveBytes(abuf.Bytes()))
+					}(i)
+				}
+				lwg.Wait()
+				for i := 0; i < nload; i++ {
+					what := ""
+					if errs[i] != nil {
+						what = "one of several concurrent loads of the same archive failed: " + errs[i].Error()
+					} else {
+						ka, _, _ := licenseclassifier.VerifInner(ls[i]).VerifKeys()
+						kb, _, _ := licenseclassifier.VerifInner(loaded).VerifKeys()
+						if vuJS(ka) != vuJS(kb) {
+							what = fmt.Sprintf("one of several concurrent loads holds %d licenses, a load alone %d", len(ka), len(kb))
+						}
+						for _, k := range kb {
+							if what == "" && (licenseclassifier.VerifInner(ls[i]).VerifValue(k) != licenseclassifier.VerifInner(loaded).VerifValue(k) ||
+								licenseclassifier.VerifInner(ls[i]).VerifSetTokens(k) != licenseclassifier.VerifInner(loaded).VerifSetTokens(k)) {
+								what = "one of several concurrent loads holds another text or search set for " + k + " than a load alone"
+							}
+						}
+					}
+					if what != "" {
+						rec.out.Emit(map[string]interface{}{"ev": "keys", "round": round, "loaded": []string{}, "direct": []string{}, "want": []string{}, "values_equal": false, "ok": false, "what": what})
+						break
+					}
+				}
+			}
+		}
 		// a read that fails: either ArchiveLicenses says so, or the archive it reports as written holds every listed license
 		for k := 0; k < 2; k++ {
 			victim := files[rng.Intn(len(files))]
@@ -525,6 +571,67 @@ func TestVerifC16(t *testing.T) {
 		licenseclassifier.Normalizers = arr[:len(saved)]
 		for i, g := range got {
 			rec.nmE("lic", l, lcRead(g.f), g.m, strings.TrimSuffix(g.f, ".txt"), false, "", fmt.Sprintf("%s/after-editing-Normalizers/%d", g.f, i), "")
+		}
+	}
+	// classifiers built with a stricter threshold: what NearestMatch answers does not depend on it (the one shipped text that is
+	// not its registered value -- Apache-2.0 carries an appendix behind END OF TERMS -- is identified at 0.89 by every classifier)
+	for _, thr := range []float64{0.9, 0.95, 1.0} {
+		var abuf bytes.Buffer
+		if err := ArchiveLicenses([]string{"Apache-2.0.txt", "MIT.txt", "OSL-2.1.txt", "BSD-3-Clause.txt", "GPL-2.0.txt"}, &abuf); err != nil {
+			rec.out.Emit(map[string]interface{}{"ev": "loadfail", "err": err.Error()})
+			break
+		}
+		ls, err := licenseclassifier.New(thr, licenseclassifier.ArchiveBytes(abuf.Bytes()))
+		if err != nil {
+			rec.out.Emit(map[string]interface{}{"ev": "loadfail", "err": err.Error()})
+			break
+		}
+		cid := fmt.Sprintf("strict%v", thr)
+		rec.keys(cid, ls)
+		for _, q := range []string{lcRead("Apache-2.0.txt"), strings.ToUpper(lcRead("Apache-2.0.txt")), lcRead("MIT.txt")} {
+			m := ls.NearestMatch(q)
+			ls.Threshold = licenseclassifier.DefaultConfidenceThreshold // the statement's bar is the default threshold
+			name := "MIT"
+			if strings.Contains(q, "END OF TERMS") {
+				name = "Apache-2.0"
+			}
+			rec.nmE(cid, ls, q, m, name, false, "", fmt.Sprintf("%s/built-with-%v", name, thr), "")
+			ls.Threshold = thr
+		}
+	}
+	// NearestMatch from several goroutines on one License: every call answers what it answers alone (decorated texts: the
+	// inexact path, where candidates are collected, sorted and diffed)
+	{
+		var qs, names []string
+		for _, f := range []string{"Beerware.txt", "AFL-1.1.header.txt", "ISC.txt", "AFL-1.2.header.txt"} { // tiny texts: many calls, whose candidate scans overlap
+			txt := lcRead(f)
+			qs = append(qs, "dnl "+strings.Replace(strings.TrimRight(txt, "\n"), "\n", "\ndnl ", -1)+"\n")
+			names = append(names, strings.TrimSuffix(strings.TrimSuffix(f, ".txt"), ".header"))
+		}
+		alone := make([]*stringclassifier.Match, len(qs))
+		for i, q := range qs {
+			alone[i] = l.NearestMatch(q)
+			rec.nmE("lic", l, q, alone[i], names[i], false, fmt.Sprintf("c16conc|%d", i), names[i]+"/dnl-alone", "")
+		}
+		const G, K = 8, 48
+		got := make([][]*stringclassifier.Match, G)
+		var wg sync.WaitGroup
+		for g := 0; g < G; g++ {
+			wg.Add(1)
+			go func(g int) {
+				defer wg.Done()
+				for k := 0; k < K; k++ {
+					got[g] = append(got[g], l.NearestMatch(qs[(g+k)%len(qs)]))
+				}
+			}(g)
+		}
+		wg.Wait()
+		for g := 0; g < G; g++ {
+			for k := 0; k < K; k++ {
+				i := (g + k) % len(qs)
+				// same memo key as the call alone: TraceV1 compares confidence, offset and extent (and the name against the canonical one)
+				rec.nmE("lic", l, qs[i], got[g][k], names[i], false, fmt.Sprintf("c16conc|%d", i), fmt.Sprintf("%s/dnl-concurrent-%d", names[i], g), "")
+			}
 		}
 	}
 	// confidences around the threshold: a run of foreign characters spliced into the middle of a license, one
